@@ -4,6 +4,8 @@
 # scratch worktree of /repo with the change applied (never /repo itself), and
 # prints one line per seed: CAUGHT / MISSED / PATCH-DOES-NOT-APPLY.
 # Evidence and found replays of these trials go to a scratch directory.
+# CONFIRM=1 also confirms each seed (demo on clean worktree, build + unedited suite + demo with the patch).
+# CHECKS="C05 C12" overrides the checks taken from meta.json.
 set -u
 export GOFLAGS=-mod=mod GOPROXY=off GOTOOLCHAIN=auto
 WT=$(mktemp -d /tmp/seedrepo.XXXXXX)
@@ -13,7 +15,6 @@ trap 'git -C /repo worktree remove --force "$WT" >/dev/null 2>&1; rm -rf "$WT" "
 dirs=("$@"); [ ${#dirs[@]} -eq 0 ] && dirs=(/verif/seeded/*/)
 for sd in "${dirs[@]}"; do
   sd=${sd%/}
-  id=$(python3 -c "import json,sys;print(json.load(open('$sd/meta.json'))['property'])" 2>/dev/null)
   checks=$(python3 -c "
 import json,re
 m=json.load(open('$sd/meta.json'))
@@ -21,12 +22,26 @@ ids=[]
 for c in re.findall(r'C[0-9][0-9]', str(m.get('caught_by',''))) or [m['property']]:
     if c not in ids: ids.append(c)
 print(' '.join(ids))" 2>/dev/null)
+  [ -n "${CHECKS:-}" ] && checks="$CHECKS"
   git -C "$WT" checkout -q -- . ; git -C "$WT" clean -fdq
-  if ! git -C "$WT" apply "$sd/patch.diff" 2>/dev/null; then echo "$(basename $sd): PATCH-DOES-NOT-APPLY"; continue; fi
+  label=$(basename $(dirname $sd))/$(basename $sd)
+  conf=""
+  if [ -n "${CONFIRM:-}" ]; then
+    # confirm the seed itself: demo passes on the clean worktree, and with the patch the tree builds, the unedited suite passes, the demo fails
+    bash "$sd/demo.sh" "$WT" >/dev/null 2>&1; dc=$?
+  fi
+  if ! git -C "$WT" apply "$sd/patch.diff" 2>/dev/null; then echo "$label: PATCH-DOES-NOT-APPLY"; continue; fi
+  if [ -n "${CONFIRM:-}" ]; then
+    (cd "$WT" && go build ./... >/dev/null 2>&1); b=$?
+    (cd "$WT" && go test -vet=off -count=1 ./... >"$OUT/suite.txt" 2>&1); su=$?
+    bash "$sd/demo.sh" "$WT" >/dev/null 2>&1; dp=$?
+    conf=" [confirm: demo-clean=$dc build=$b suite=$su demo-patched=$dp]"
+    git -C "$WT" checkout -q -- . ; git -C "$WT" clean -fdq; git -C "$WT" apply "$sd/patch.diff"
+  fi
   res=""
   for c in $checks; do
     VERIF_REPO="$WT" VERIF_EVIDENCE_DIR="$OUT/ev" VERIF_FOUND_DIR="$OUT/found" /verif/check $c >"$OUT/log.txt" 2>&1; rc=$?
     res="$res $c=$rc"
   done
-  case "$res" in *=1*) echo "$(basename $sd): CAUGHT ($res )";; *=2*) echo "$(basename $sd): INFRA ($res )"; tail -3 "$OUT/log.txt";; *) echo "$(basename $sd): MISSED ($res )";; esac
+  case "$res" in *=1*) echo "$label: CAUGHT ($res )$conf";; *=2*) echo "$label: INFRA ($res )$conf"; tail -3 "$OUT/log.txt";; *) echo "$label: MISSED ($res )$conf";; esac
 done
